@@ -19,7 +19,7 @@ LEVEL_RULE = (
 EXHAUSTIVE_SUBDOMAINS = ["8192 identity patterns x {DF5, DF21, TC28}", "FS x DR x IIS x IDS product x {DF4, DF5}", "interrogator overlays 0..127 plus every single high bit x {0,5,22,79} and random 24-bit overlays",
                          "CA 0..7, interrogator code 0..127", "guard matrix: 8 decoders x DF 0..31"]
 ASSUMPTIONS = ["description strings returned beside FS/DR/IDS/CA are not judged, only the numeric fields"]
-REQUIRED = ["id_df5", "id_df21", "id_tc28", "id_tc28_sparse", "field_overwritten_parity_kept", "x0", "x1", "surv_df4", "surv_df5", "ic_ii", "ic_si", "ic_corrupt", "ca", "guards"]
+REQUIRED = ["seventy_thousand_refusals_at_one_decoder", "id_df5", "id_df21", "id_tc28", "id_tc28_sparse", "field_overwritten_parity_kept", "x0", "x1", "surv_df4", "surv_df5", "ic_ii", "ic_si", "ic_corrupt", "ca", "guards"]
 
 
 def m_identity(ctx, case):
@@ -222,6 +222,27 @@ def m_volume(ctx, case):
         if r != ("ok", exp) or r2 != ("ok", exp):
             ctx.violation("identity-decoded-differently-after-%dk-others" % (n // 1000), frame=hx, expected=exp, idcode=r[1:], identity=r2[1:])
             return
+    # ... and a long history of REFUSED frames at one decoder (a diagnostic tally in a 16-bit slot): refusal number 70000 is still
+    # a RuntimeError
+    from pyModeS import allcall
+    wrong = "%028X" % ((17 << 107) | rng.getrandbits(107))
+    short_wrong = "%014X" % ((4 << 51) | rng.getrandbits(51))
+    for fn_, fr_ in ((allcall.interrogator, wrong), (allcall.capability, short_wrong), (allcall.icao, wrong), (surv.identity, wrong), (common.idcode, wrong)):
+        last = None
+        for k in range(70000):
+            try:
+                fn_(fr_)
+                last = "returned a value"
+            except RuntimeError:
+                last = None
+            except Exception as e:  # noqa
+                last = "raised " + type(e).__name__
+            if last:
+                ctx.violation("guard-missing" if last.startswith("returned") else "guard-raises-%s-after-many-refusals" % last.split()[-1],
+                              frame=fr_, api=getattr(fn_, "__name__", str(fn_)), observed=last, refusal_number=k + 1)
+                return
+        ctx.ev(70000)
+    ctx.hit("seventy_thousand_refusals_at_one_decoder")
     ctx.hit("first_identity_replies_again_after_%s_others" % ("a_million" if n > 1000000 else "70k"))
     ctx.nontrivial(("vol", case["vseed"]))
 
